@@ -596,7 +596,7 @@ def family_case(members: list[Any], given: list[Any] | None = None) -> dict[str,
                 return None
     ids: dict[Any, int] = {}
     h = [ids.setdefault(v, len(ids) + 1) for v in hv]
-    return {"n": n, "proj": projs, "eq": eq, "h": h}
+    return {"n": n, "proj": projs, "eq": eq, "h": h, "twins": []}
 
 
 MC_CFG = 'SPECIFICATION Spec\nCONSTANT Scheme = "{s}"\nINVARIANT {inv}\n'
@@ -670,7 +670,7 @@ def run(ctx: Ctx):
         cms = class_mutants(rng, a, data_by_payload)
         others = [rng.choice(everything)[0] for _ in range(3)]
         members = [a, twin] + ms + cms + others
-        labels = [label, label + " (twin)"] + [label + " (mutant)"] * len(ms) + [label + " (same parameters, other class)"] * len(cms) + ["other"] * 3
+        labels = [label, label + " (built again from the same parameters)"] + [label + " (mutant)"] * len(ms) + [label + " (same parameters, other class)"] * len(cms) + ["other"] * 3
         families.append((members, labels))
     families += same_name_families()
     # (b) all generated float-carrying attributes of one class against each other (signed zeros, NaN payloads)
@@ -693,6 +693,8 @@ def run(ctx: Ctx):
     skipped = 0
     for members, labels, projs in [(m, l, None) for m, l in families] + opf:
         c = family_case(members, projs)
+        if c is not None and len(labels) > 1 and labels[1].endswith("(built again from the same parameters)"):
+            c["twins"] = [[1, 2]]
         if c is None:
             skipped += 1
             continue
